@@ -22,7 +22,7 @@
 #include <time.h>
 #include <unistd.h>
 
-int      vs_atomic_points, vs_unlock_points, vs_io_points, vs_io_maxclamp, vs_io_eagain;
+int      vs_atomic_points, vs_alloc_points, vs_unlock_points, vs_io_points, vs_io_maxclamp, vs_io_eagain;
 int      vs_tcp_grace_us;
 uint32_t vs_random_seed;
 int      vs_in_child;
@@ -312,8 +312,7 @@ vx_explore(const vx_cfg *cfg, vx_stats *out)
 			fclose(f);
 			digest_reports(buf, cfg->scenario);
 		}
-		if (SH->nch == 0)
-			break; // no ENV choices: every run is the same program
+		// (no ENV choices: the same program again - real-time interleavings still differ)
 	}
 	printf("[free] %s/%s: runs=%d distinct race reports so far=%d\n", G.prop, cfg->scenario, runs,
 	    G.nsig);
